@@ -12,15 +12,18 @@ EXTENDS Naturals, Sequences, FiniteSets, TLC
 NoneV == "-"
 P(addr, verb, host, ep) == [addr |-> addr, verb |-> verb, host |-> host, ep |-> ep]
 \* the application's patterns, in match order (descending address, then host)
+\* literal segments are tried before a placeholder in the same position ("puts the more
+\* specific addresses to the front"): /a/list before /a/<x>
 Patterns == << P(<<"b">>, NoneV, NoneV, "m3"),
+               P(<<"a", "list">>, NoneV, NoneV, "m6"),
                P(<<"a", "<x>">>, NoneV, NoneV, "m2"),
                P(<<"a">>, "GET", NoneV, "m1"),
                P(<<"a">>, "DELETE", NoneV, "m4") >>
-Endpoints == {"m1", "m2", "m3", "m4", "m5"}     \* m5 has no pattern
+Endpoints == {"m1", "m2", "m3", "m4", "m5", "m6"}     \* m5 has no pattern
 Verbs == {"GET", "DELETE", "HEAD"}
 Hosts == {"a.example", "b.example"}   \* host PATTERNS cannot be constructed on Python 3 (str/bytes mix in HttpPattern.__init__): only the request host varies
 Paths == {<<"a">>, <<"a", "1">>, <<"a", "1", "2">>, <<"a", "">>, <<"b">>, <<"ab">>, <<"A">>,
-          <<"x", "m5">>, <<"m5">>, <<"m1">>, <<"x", "m2">>, <<"zz">>, <<"a", "m5">>}
+          <<"a", "list">>, <<"a", "list", "x">>, <<"x", "m5">>, <<"m5">>, <<"m1">>, <<"x", "m2">>, <<"zz">>, <<"a", "m5">>}
 
 SegMatch(p, s)  == p = "<x>" \/ p = s
 AddrMatch(a, p) == Len(a) = Len(p) /\ \A i \in 1..Len(a) : SegMatch(a[i], p[i])
@@ -33,9 +36,11 @@ FirstMatch(v, h, p) == LET I == {i \in 1..Len(Patterns) : Matches(Patterns[i], v
 Route(v, h, p) == IF FirstMatch(v, h, p) # 0 THEN Patterns[FirstMatch(v, h, p)].ep
                   ELSE IF p[Len(p)] \in Endpoints THEN p[Len(p)] ELSE "notfound"
 Requests == Verbs \X Hosts \X Paths
-\* sanity of the table: the order of patterns never decides between two endpoints
+\* sanity of the table: two patterns match one request only as literal-versus-placeholder,
+\* and then the literal one comes first
 Unambiguous == \A r \in Requests :
    \A i, j \in 1..Len(Patterns) :
-      (Matches(Patterns[i], r[1], r[2], r[3]) /\ Matches(Patterns[j], r[1], r[2], r[3]))
-          => Patterns[i].ep = Patterns[j].ep
+      (i < j /\ Matches(Patterns[i], r[1], r[2], r[3]) /\ Matches(Patterns[j], r[1], r[2], r[3])
+         /\ Patterns[i].ep # Patterns[j].ep)
+          => \E k \in 1..Len(Patterns[i].addr) : Patterns[i].addr[k] # "<x>" /\ Patterns[j].addr[k] = "<x>"
 =============================================================================
